@@ -34,6 +34,7 @@ func (pt *WgCounter) Done() bool {
 		}
 
 		if pt.count.CompareAndSwap(count, count-1) {
+			vhook("wgc.cas", count)
 			pt.wg.Done()
 			return count == 1
 		}
